@@ -45,27 +45,19 @@ Definition BBB : Z := 2 ^ 192.
 (* div_nxm: divisor >= 3 limbs, numerator at least as long, top divisor limb non-zero *)
 Definition pre_nxm (n d : list Z) : bool :=
   Nat.leb 3 (length d) && Nat.leb (length d) (length n) && negb (lastz d =? 0).
-(* div_nxm_normalized, as documented: both >= 2 limbs, numerator at least as long,
-   highest bit of the divisor set *)
-Definition pre_nxm_norm_doc (n d : list Z) : bool :=
-  Nat.leb 2 (length d) && Nat.leb (length d) (length n) && (2 ^ 63 <=? lastz d).
-(* ... what the code additionally needs (NOT documented): room for the quotient and
-   top limbs of the numerator below the divisor.  See REPORT.md, finding D1. *)
-Definition pre_nxm_norm_implicit (n d : list Z) : bool :=
-  Nat.ltb (length d) (length n) &&
+(* div_nxm_normalized: both >= 2 limbs, numerator longer than the divisor, highest bit of the
+   divisor set, the highest divisor.len() limbs of the numerator below the divisor *)
+Definition pre_nxm_norm (n d : list Z) : bool :=
+  Nat.leb 2 (length d) && Nat.ltb (length d) (length n) && (2 ^ 63 <=? lastz d) &&
   (eval (skipn (length n - length d) n) <? eval d).
-Definition nxm_norm_gap (n d : list Z) : bool :=
-  pre_nxm_norm_doc n d && negb (pre_nxm_norm_implicit n d).
 Definition pre_nx (n : list Z) : bool :=
   negb (Nat.eqb (length n) 0) && negb (lastz n =? 0).
 
-(* ---- input domain: words are words.  The one restriction beyond typing is the
-   undocumented precondition of div_nxm_normalized (finding D1). ---- *)
+(* ---- input domain: words are words ---- *)
 Definition wf (c : call) : Prop :=
   match c with
-  | div bits n d | div_nxm bits n d => 0 <= bits /\ Forall inW n /\ Forall inW d
-  | div_nxm_normalized bits n d =>
-      0 <= bits /\ Forall inW n /\ Forall inW d /\ nxm_norm_gap n d = false
+  | div bits n d | div_nxm bits n d | div_nxm_normalized bits n d =>
+      0 <= bits /\ Forall inW n /\ Forall inW d
   | div_nx1 bits n d | div_nx1_normalized bits n d => 0 <= bits /\ Forall inW n /\ inW d
   | div_nx2 bits n d | div_nx2_normalized bits n d => 0 <= bits /\ Forall inW n /\ in128 d
   | div_2x1 bits u d v => 0 <= bits /\ in128 u /\ inW d /\ inW v
@@ -75,9 +67,8 @@ Definition wf (c : call) : Prop :=
   end.
 Definition wfb (c : call) : bool :=
   match c with
-  | div bits n d | div_nxm bits n d => (0 <=? bits) && forallb inWb n && forallb inWb d
-  | div_nxm_normalized bits n d =>
-      (0 <=? bits) && forallb inWb n && forallb inWb d && negb (nxm_norm_gap n d)
+  | div bits n d | div_nxm bits n d | div_nxm_normalized bits n d =>
+      (0 <=? bits) && forallb inWb n && forallb inWb d
   | div_nx1 bits n d | div_nx1_normalized bits n d => (0 <=? bits) && forallb inWb n && inWb d
   | div_nx2 bits n d | div_nx2_normalized bits n d => (0 <=? bits) && forallb inWb n && in128b d
   | div_2x1 bits u d v => (0 <=? bits) && in128b u && inWb d && inWb v
@@ -103,7 +94,7 @@ Definition spec (c : call) (o : result) : bool :=
         [TL (L (length n) (eval n / eval d)); TL (L (length d) (eval n mod eval d))]
   | div_nxm_normalized _ n d =>
       (* remainder in numerator[..len d], quotient in numerator[len d..] *)
-      under (pre_nxm_norm_doc n d) o
+      under (pre_nxm_norm n d) o
         [TL (L (length d) (eval n mod eval d) ++ L (length n - length d) (eval n / eval d))]
   | div_nx1 _ n d =>
       under (negb (d =? 0) && pre_nx n) o [TL (L (length n) (eval n / d)); TZ (eval n mod d)]
